@@ -8,7 +8,8 @@ def handlers : List (String × (List String → Option String)) :=
     ("estepref", Engine.handleStepRef), ("eflushref", Engine.handleFlushRef),
     ("interp-linear", Series.handleLinear), ("interp-previous", Series.handlePrevious), ("series-insert", Series.handleInsert),
     ("capacity", Coverage.handleCapacity), ("propcov", Coverage.handlePropcov), ("effcov", Coverage.handleEffcov),
-    ("covout", Covout.handle) ]
+    ("covout", Covout.handle),
+    ("expr-accept", Expr.handle "expr-accept"), ("expr-eval", Expr.handle "expr-eval"), ("plotstr", Expr.handle "plotstr") ]
 
 /-- One request per line: `<kind> <args…>`; one canonical reply per line. -/
 def dispatch (line : String) : String :=
